@@ -181,6 +181,14 @@ def step (s : St) (ws : List String) : St × List String :=
           | none => panic s
         | _ => (s, ["bad-op"])
     | _, _, _, _, _ => (s, ["bad-op"])
+  | ["arena_flush"] =>
+    match w.iov 0 with
+    | some v => fin s (w.setIov 0 (some { v with arena := flush v.arena })) s.codec
+    | none => (s, ["bad-op"])
+  | ["arena_take_drop"] =>
+    match w.iov 0 with
+    | some v => fin s (w.setIov 0 (some { v with arena := ⟨none⟩ })) s.codec
+    | none => (s, ["bad-op"])
   | ["drain_all"] =>
     match w.consume 0 1000000000 with
     | some (w', n) => fin s w' s.codec ["R " ++ toString n]
